@@ -272,6 +272,28 @@ def runCl (ws extra : List String) : String :=
     | _, _, _, _, _, _, _ => "bad-op"
   | _, _ => "bad-op"
 
+/-- groups of `k` words -/
+def chunks (k : Nat) : Nat → List String → List (List String)
+  | 0, _ => []
+  | fuel + 1, ws => if ws.isEmpty ∨ k = 0 then [] else ws.take k :: chunks k fuel (ws.drop k)
+
+/-- op `conc` (concurrent use, `harness/c08_conc.go`):
+`conc <g> <r> <race> <fast> <rel> <delta> <gi> <si> <minov> <idn> <idd> <n> n × [A QA B QB] | <gap> <adj> n × [isLeft path scores]`.
+The result is what the `n` pairs answer one after the other: each is the sequential `pl` clause (`runPl`: vote, score
+along the path, consensus, assembled record and all annotations); the harness demands the same answers from `g`
+concurrent workers. No state is shared between two calls of the model (pure functions), which is the claim under test. -/
+def runConc (ws extra : List String) : String :=
+  match ws, extra with
+  | g :: r :: race :: f :: rl :: d :: gi :: si :: mo :: idn :: idd :: n :: pairs, gp :: adjh :: datas =>
+    match g.toNat?, r.toNat?, race.toNat?, n.toNat? with
+    | some g, some r, some race, some n =>
+      if g = 0 ∨ g > 64 ∨ r = 0 ∨ r > 200 ∨ race > 1 ∨ n = 0 ∨ n > 32 ∨ pairs.length ≠ 4 * n ∨ datas.length ≠ 3 * n then "bad-op" else
+      let ps := chunks 4 n pairs
+      let ds := chunks 3 n datas
+      " ;; ".intercalate ((ps.zip ds).map fun (p, dt) => runPl ([f, rl, d, gi, si, mo, idn, idd] ++ p) ([gp, adjh] ++ dt))
+    | _, _, _, _ => "bad-op"
+  | _, _ => "bad-op"
+
 def run (line : String) : String :=
   match line.splitOn " | " with
   | [main] =>
@@ -285,6 +307,7 @@ def run (line : String) : String :=
     | "fm" :: ws => runFm ws (words extra)
     | "fa" :: ws => runFa ws (words extra)
     | "cl" :: ws => runCl ws (words extra)
+    | "conc" :: ws => runConc ws (words extra)
     | ["cons", a, qa, b, qb, p] =>
       match unhex a, unhex qa, unhex b, unhex qb, parsePath p, unhex extra.trimAscii.toString with
       | some a, some qa, some b, some qb, some p, some adjt =>
